@@ -345,8 +345,8 @@ def pool_strategy():
 
 PHASES = [
     Phase("inproc", run_case, strategy=strategy,
-          examples={"quick": 6000, "thorough": 80000}),
+          examples={"quick": 6000, "thorough": 300000}),
     Phase("pools", run_case_pool, strategy=pool_strategy,
-          examples={"quick": 48, "thorough": 800},
+          examples={"quick": 48, "thorough": 2400},
           shards={"quick": 8, "thorough": 8}, shrink=False),
 ]
